@@ -247,8 +247,21 @@ pub trait Translator {
             {
                 // get the entry index for the first/head block in the successor
                 let (block_entry, _) = block_indices[successor_address];
-                // check for duplicate edges
-                if control_flow_graph.edge(block_exit, block_entry).is_ok() {
+                // An edge between these two blocks already exists: another
+                // successor of this block (a conditional branch to the next
+                // instruction), a manual edge, or the same successor seen
+                // through an overlapping block. The one edge is taken when
+                // either condition holds.
+                if let Ok(edge) = control_flow_graph.edge_mut(block_exit, block_entry) {
+                    if let Some(existing) = edge.condition_mut() {
+                        match successor_condition {
+                            Some(condition) if condition == existing => {}
+                            Some(condition) => {
+                                *existing = Expression::or(existing.clone(), condition.clone())?
+                            }
+                            None => *existing = expr_const(1, 1),
+                        }
+                    }
                     continue;
                 }
                 match successor_condition {
